@@ -377,13 +377,12 @@ func runC17Settings(k int, rng *Rng) CaseResult {
 	if rng.Bool() {
 		w.Reopen(false)
 	}
+	// asynchronous mode: writes stay pending (the flusher is parked on the
+	// virtual clock and is not ticked): a refused Create must not flush them
 	if cfg.Async != 0 {
-		var e error
-		w.call("FlushAllAndCommit", func() { e = w.db.FlushAllAndCommit(&Rec{}) })
-		if e != nil {
-			w.fail("flush-error", "FlushAllAndCommit", "-", e.Error())
-		}
+		w.Step(HistOpts{MaxObjs: 12, Rec: RecOpts{ValidOnly: true, Simple: true}, Mix: Mix{Ins: 70, Upd: 30}})
 	}
+	clockSettle() // a freshly started flusher runs its first iteration before it parks
 	before, beforeFiles := treeHash(w.root)
 	// (a) other constraints
 	for i := 0; i < 3 && !w.failed(); i++ {
@@ -431,9 +430,8 @@ func runC17Settings(k int, rng *Rng) CaseResult {
 			w.fail("extension-change-not-refused", "Create", "-", fmt.Sprintf("%s -> %s: %v", cfg.Ext, other.Ext, e))
 		}
 	}
-	clockTick()
 	if h, files := treeHash(w.root); !w.failed() && h != before {
-		w.fail("refused-operation-changed-files", "Create", "-", diffTree(beforeFiles, files))
+		w.fail("refused-operation-changed-files", "Create", cfgMode(cfg), diffTree(beforeFiles, files))
 	}
 	// (c) compatible Create is idempotent and preserves data
 	for i := 0; i < 2 && !w.failed(); i++ {
